@@ -137,7 +137,9 @@ def corr_runs(model, r, n):
         for (args, rc, out), rep in zip(results, reps):
             text = out.decode("utf-8", "replace")
             lines = text.splitlines()
-            if any(l.startswith("RAN ") for l in lines):
+            if "Argument expected for the" in text:
+                impl = {"runs": "other"}  # a missing option value: usage error, nothing runs
+            elif any(l.startswith("RAN ") for l in lines):
                 line = [l for l in lines if l.startswith("RAN ")][0]
                 impl = {"runs": "script", "word": line.split(" ")[1]}
             elif "CODE" in lines:
@@ -152,7 +154,9 @@ def corr_runs(model, r, n):
             if rep.get("runs") == "script":
                 got["word"] = rep.get("word").split("/")[-1]
             if rep.get("runs") == "module":
-                got = {"runs": "script", "word": (rep.get("name") or "") + ".py"} if rep.get("name") in ("a",) else {"runs": "other"}
+                # -m a / -m a.py / -m b.x import (execute) a.py resp. b.py before anything else
+                root_mod = (rep.get("name") or "").split(".")[0]
+                got = {"runs": "script", "word": root_mod + ".py"} if root_mod in ("a", "b") else {"runs": "other"}
             if impl["runs"] == "other" or (rep.get("runs") == "interactive"):
                 # an interpreter error or the interactive prompt on our closed stdin: not a disagreement about which program runs
                 acc.stats["interpreter_error_or_interactive"] += 1
@@ -244,6 +248,71 @@ def payloads():
     return P
 
 
+# ------------------------------------------------------------------ systematic access paths
+
+OS_METHODS = [("remove", "(P)"), ("replace", "(P, P + '2')"), ("rename", "(P, P + '2')"), ("unlink", "(P)"), ("system", "('true')"), ("mkdir", "(P + 'd')"), ("rmdir", "(P + 'd')"), ("open", "(P, 0)"),
+              ("popen", "('true')"), ("chmod", "(P, 0o600)"), ("listdir", "('.')"), ("putenv", "('A', '1')"), ("makedirs", "(P + 'e/f')"), ("truncate", "(P, 0)"), ("symlink", "(P, P + 'l')"), ("link", "(P, P + 'h')"),
+              ("startfile", "(P)"), ("execv", "('/bin/true', ['true'])"), ("spawnl", "(0, '/bin/true', 'true')"), ("kill", "(0, 0)"), ("scandir", "('.')"), ("walk", "('.')"), ("stat", "(P)"), ("access", "(P, 0)")]
+IO_METHODS = [("open", "(P, 'w')"), ("FileIO", "(P, 'w')"), ("open_code", "(P)")]
+SYS_METHODS = [("exit", "()"), ("setrecursionlimit", "(50)"), ("_getframe", "()"), ("settrace", "(None)"), ("addaudithook", "(print)")]
+HOLDERS = {
+    "direct": "{src}.{m}{a}\n",
+    "alias-var": "v = {src}\nv.{m}{a}\n",
+    "param": "def f(x):\n    return x.{m}{a}\nf({src})\n",
+    "default-arg": "def f(x={src}):\n    return x.{m}{a}\nf()\n",
+    "list-subscript": "ms = [{src}]\nms[0].{m}{a}\n",
+    "dict-subscript": "d = {{'k': {src}}}\nd['k'].{m}{a}\n",
+    "instance-attr": "class H:\n    pass\nh = H()\nh.mod = {src}\nh.mod.{m}{a}\n",
+    "tuple-unpack": "a, b = {src}, 1\na.{m}{a}\n",
+    "walrus": "(v := {src}).{m}{a}\n",
+    "lambda": "(lambda x: x.{m}{a})({src})\n",
+    "comprehension": "[x.{m}{a} for x in [{src}]]\n",
+    "bound-alias": "g = {src}.{m}\ng{a}\n",
+    "closure": "def outer():\n    x = {src}\n    def inner():\n        return x.{m}{a}\n    return inner\nouter()()\n",
+    "for-loop": "for x in ({src},):\n    x.{m}{a}\n",
+    "with-as": "import contextlib\nwith contextlib.nullcontext({src}) as x:\n    x.{m}{a}\n",
+    "ternary": "x = {src} if True else None\nx.{m}{a}\n",
+    "return-value": "def get():\n    return {src}\nget().{m}{a}\n",
+}
+
+
+def module_sources():
+    """dotted paths through safe-listed modules that evaluate to os / io / sys / builtins-like modules (found by introspection)"""
+    import importlib
+    import types
+
+    import dippy.cli.python as P
+
+    targets = {"os": OS_METHODS, "posix": OS_METHODS, "io": IO_METHODS, "_io": IO_METHODS, "sys": SYS_METHODS, "codecs": [("open", "(P, 'w')")], "builtins": [("open", "(P, 'w')"), ("eval", "('1')"), ("exec", "('1')")],
+               "subprocess": [("run", "(['true'])"), ("Popen", "(['true'])")], "shutil": [("rmtree", "(P + 'd')"), ("copy", "(P, P + '2')")], "pathlib": [("Path", "(P).write_text('x')")]}
+    out = []
+    for name in sorted(P.SAFE_MODULES):
+        try:
+            mod = importlib.import_module(name)
+        except Exception:  # noqa: BLE001
+            continue
+        for attr, val in sorted(vars(mod).items()):
+            if isinstance(val, types.ModuleType) and val.__name__ in targets and not (attr.startswith("__") and attr.endswith("__")):
+                out.append(("import %s\n" % name, "%s.%s" % (name, attr), targets[val.__name__], val.__name__))
+                # one level deeper (json.codecs.sys)
+                for a2, v2 in sorted(vars(val).items()):
+                    if isinstance(v2, types.ModuleType) and v2.__name__ in targets and not a2.startswith("__") and len(out) < 400:
+                        out.append(("import %s\n" % name, "%s.%s.%s" % (name, attr, a2), targets[v2.__name__], v2.__name__))
+    return out
+
+
+def systematic(r, k, outpath_token="OUT"):
+    srcs = module_sources()
+    res = []
+    for _ in range(k):
+        imp, src, methods, tname = r.pick(srcs)
+        m, a = r.pick(methods)
+        hname = r.pick(sorted(HOLDERS))
+        body = HOLDERS[hname].format(src=src, m=m, a=a)
+        res.append(("sys:%s:%s.%s" % (hname, tname, m), imp + "P = '" + outpath_token + "'\n" + body))
+    return res
+
+
 def gen_script(r, payload_src):
     pre = ""
     if r.chance(0.5):
@@ -279,8 +348,9 @@ def search(ctx):
         n = ctx.scale(1, 12) * (2 if ctx.broken else 1)
         jobs = []
         idx = 0
+        stats["module_sources"] = len(module_sources())
         for rep in range(n):
-            for label, src in pls:
+            for label, src in pls + systematic(r, ctx.scale(700, 3000)):
                 idx += 1
                 d = os.path.join(root, "s%d" % idx)
                 os.makedirs(d)
@@ -294,7 +364,7 @@ def search(ctx):
                 dec = analyze(cmd, Config(), Path(d))
                 stats["evaluations"] += 1
                 stats["verdict:" + dec.action] += 1
-                stats["label:" + label + ":" + dec.action] += 1
+                stats["label:" + (label if not label.startswith("sys:") else "sys:" + label.split(":")[1]) + ":" + dec.action] += 1
                 if dec.action == "allow":
                     jobs.append((label, cmd, d, script, source, pre, post))
 
